@@ -47,6 +47,7 @@ func ruleR12_1(w *World, r *Report) {
 				if len(paths) == 0 {
 					bad = calleeName(c)
 				}
+				heldAll := len(paths) > 0
 				for _, p := range paths {
 					held := false
 					for _, l := range p {
@@ -55,8 +56,46 @@ func ruleR12_1(w *World, r *Report) {
 						}
 					}
 					if !held {
-						bad = calleeName(c)
+						heldAll = false
 					}
+				}
+				if !heldAll {
+					// the decision may have moved, with the steps, into a new helper that is handed the result of
+					// TryLock: then every path to the call inside that helper tests the parameter
+					heldAll = false
+					cur := x.in
+					for a := x.n; a != nil && a.parent != nil && !heldAll; a = a.parent {
+						if flattenable[a.fn] {
+							hp, okh := reachingLitsOwn(a.fn, nil, cur)
+							all := okh && len(hp) > 0
+							for _, p := range hp {
+								held := false
+								for _, l := range p {
+									if l.Kind != "bool" || !l.Pol {
+										continue
+									}
+									if prm, isP := l.X.(*ssa.Parameter); isP {
+										args := helperArgs(prm)
+										same := len(args) > 0
+										for _, av := range args {
+											if av != ssa.Value(try) {
+												same = false
+											}
+										}
+										if same {
+											held = true
+										}
+									}
+								}
+								all = all && held
+							}
+							heldAll = all
+						}
+						cur = a.site.(ssa.Instruction)
+					}
+				}
+				if !heldAll {
+					bad = calleeName(c)
 				}
 			})
 			// the failure edge must leave with an error recorded in the handler
@@ -72,6 +111,42 @@ func ruleR12_1(w *World, r *Report) {
 						}
 					}
 				}
+			}
+			// ... or by a new helper that is handed the result of TryLock and whose refusal is stored
+			for _, st := range storesTo(fn, ".err") {
+				hc, isCall := st.Val.(*ssa.Call)
+				if !isCall {
+					continue
+				}
+				h := hc.Call.StaticCallee()
+				if h == nil || !flattenable[h] {
+					continue
+				}
+				forEachOwnInstr(h, func(in ssa.Instruction) {
+					ret, isRet := in.(*ssa.Return)
+					if !isRet || len(ret.Results) != 1 {
+						return
+					}
+					rc, isNew := ret.Results[0].(*ssa.Call)
+					if !isNew || calleeName(rc) != "New" {
+						return
+					}
+					hp, _ := reachingLitsOwn(h, nil, ret)
+					for _, p := range hp {
+						for _, l := range p {
+							if l.Kind != "bool" || l.Pol {
+								continue
+							}
+							if prm, isP := l.X.(*ssa.Parameter); isP {
+								for _, av := range helperArgs(prm) {
+									if av == ssa.Value(try) {
+										errSet = true
+									}
+								}
+							}
+						}
+					}
+				})
 			}
 			r.Check(bad == "" && n >= 3 && errSet, "PushPullHandler.process/lock result consulted", u.Pos(try.Pos()), fmt.Sprintf("all %d storage accesses below process on the success edge; the failure edge records an error", n),
 				fmt.Sprintf("the storage access %q runs on a path where TryLock was not successful, or the failure edge records no error (storage accesses found %d, error recorded %v)", bad, n, errSet))
